@@ -13,7 +13,7 @@
      res/ids in order of the Begin tokens; r = nil|timeout|err|run; id = '-' for mode a
      sz = waiter-table size at every snapshot token, then at the end. *)
 From PV Require Import Base.Text Model.Ping Model.PingTrace Model.PingFrame Model.PingScript Model.PingKnown.
-From PV Require Import Spec.PingRFC Spec.PingSpec.
+From PV Require Import Spec.PingRFC Spec.PingSpec Model.PingAbs.
 Open Scope string_scope.
 Open Scope N_scope.
 
@@ -67,6 +67,7 @@ Definition show_result (o : option result) : string :=
   | Some RNil => "nil"
   | Some RTimeout => "timeout"
   | Some RSendErr => "err"
+  | Some RBusy => "err"
   | None => "run"
   end.
 
@@ -92,17 +93,13 @@ Definition obs_of (fix24 : bool) (n0 : N) (ts : list tok) : string :=
 (* ---- spec column: the reference machine of Spec/PingSpec.v driven by the RFC classifier of
    Spec/PingRFC.v; identifiers and next-id are taken from the model (the spec does not say how
    identifiers are chosen) ---- *)
-Definition sevents_of (s : state) (t : tok) : list sevent :=
+(* reference events of a token: frames are read by the RFC recogniser (independent of Parse's
+   model); everything else is the abstraction of the model events (Model/PingAbs.v abs_trace, the
+   map the refinement theorem C19_refines is about) *)
+Definition sevents_of (s : state) (t : tok) (evs : list event) : list sevent :=
   match t with
-  | TBegin p ok _ => SBegin p (next s) :: (if ok then [] else [SFail p])
-  | TReg p => [SBegin p (next s)]
-  | TSent p ok => if ok then [] else [SFail p]
-  | TBulk _ => []
   | TFrame f => [match rfc_reply_id f with Some i => SReply i | None => SOther end]
-  | TWait p => [SEnd p]
-  | TEnd p => [SEnd p]
-  | TTimeout _ => []
-  | TSnap => []
+  | _ => abs_trace FIX24 s evs
   end.
 
 Fixpoint spec_script (s : state) (st : sstate) (ts : list tok) : res (state * sstate * list nat) :=
@@ -111,7 +108,7 @@ Fixpoint spec_script (s : state) (st : sstate) (ts : list tok) : res (state * ss
   | t :: r =>
       (evs <- events_of parse_notify s t ;;
        s' <- run FIX24 s evs ;;
-       match srun st (sevents_of s t) with
+       match srun st (sevents_of s t evs) with
        | None => Err EOther
        | Some st' =>
            '(sf, stf, sizes) <- spec_script s' st' r ;;
@@ -149,18 +146,6 @@ Definition spec_obs (n0 : N) (ts : list tok) : string :=
 Definition has_failed_begin (ts : list tok) : bool :=
   existsb (fun t => match t with TBegin _ false _ => true | TSent _ false => true | _ => false end) ts.
 
-(* some state along the run is not young (identifier reused while its first owner is outstanding) *)
-Fixpoint wrap_key (s : state) (ts : list tok) : bool :=
-  known_C19_wrap s ||
-  match ts with
-  | [] => false
-  | t :: r =>
-      match events_of parse_notify s t with
-      | Ok evs => match run FIX24 s evs with Ok s' => wrap_key s' r | _ => false end
-      | _ => false
-      end
-  end.
-
 Definition res_opt_eqb (a : res (option N)) (b : option N) : bool :=
   match a, b with
   | Ok (Some x), Some y => x =? y
@@ -181,7 +166,6 @@ Fixpoint frame_key (ts : list tok) : string :=
 Definition key_of (n0 : N) (ts : list tok) : string :=
   let fk := frame_key ts in
   if negb (String.eqb fk "-") then fk
-  else if wrap_key (init n0) ts then "ping_id_wrap_collision"
   else if negb FIX24 && has_failed_begin ts then "ping_send_fail_leaks_waiter" else "-".
 
 Definition dispatch (kind : string) (args : list string) : string :=
